@@ -27,6 +27,7 @@ type PropertyConfig struct {
 	ReplayFamily string  `json:"replay_family"`
 	Strings     string   `json:"strings"`
 	Derive      string   `json:"derive"`
+	Grammar     bool     `json:"grammar_lemma"`
 }
 
 type BoundedSpec struct {
@@ -244,6 +245,17 @@ func (r *checkRun) run() int {
 		rep := VerifyFunction(w, fn, fc)
 		if rep.Unsupported != "" {
 			rep.Obligations = append(rep.Obligations, &Obligation{Name: fc.Key + "#unsupported", Kind: "unsupported", Func: fc.Key, Result: "unsupported", Detail: rep.Unsupported})
+		}
+		r.reports = append(r.reports, rep)
+	}
+	if r.cfg.Grammar {
+		g := checkGrammarLemma(r.repo)
+		rep := &FuncReport{Key: "cypher/grammar/Cypher.g4"}
+		if len(g.Violations) == 0 {
+			rep.Obligations = append(rep.Obligations, &Obligation{Name: "cypher/grammar/Cypher.g4#grammar.lemma", Kind: "derive", Func: rep.Key, Result: "unsat", Solver: "structural", Src: fmt.Sprintf("%d rules, %d reachable from oC_Cypher without the guard rules, none mentions a data-modifying keyword; CALL and $ are confined", g.Rules, g.Reachable)})
+		}
+		for i, v := range g.Violations {
+			rep.Obligations = append(rep.Obligations, &Obligation{Name: fmt.Sprintf("cypher/grammar/Cypher.g4#grammar.lemma.%d", i), Kind: "derive", Func: rep.Key, Result: "refuted", Detail: v})
 		}
 		r.reports = append(r.reports, rep)
 	}
